@@ -276,7 +276,9 @@ class Exec(CallsMixin, Interp):
             if isinstance(base, PyObj):
                 raise Unsupported('subscript store on %r (declare the local kind)' % (base,))
             k = base.kind
-            if isinstance(k, K.Map):
+            if isinstance(k, K.Fun):
+                new = K.fun_set(base, idx, v)
+            elif isinstance(k, K.Map):
                 if isinstance(v, PyObj):
                     v = self.empty_of(k.val, v)
                 new = K.map_set(base, idx, v)
@@ -562,6 +564,7 @@ class Exec(CallsMixin, Interp):
         if tag == 'set':
             src = self.set_to_seq(src)
             tag = 'seq'
+            self.ghost_locals['order'] = src      # the (arbitrary) enumeration, nameable in invariants
         if tag == 'range':
             n_log = src.hi - src.lo
         else:
@@ -646,14 +649,16 @@ class Exec(CallsMixin, Interp):
         pos = self.p.fresh('so!pos', K.nested_array_sort(sorts, z3.IntSort()))
         self.p.assume(n == s.terms[0])
         at_i = [z3.Select(a, i) for a in seq.terms[1:]]
-        self.p.assume(z3.ForAll([i], z3.Implies(z3.And(0 <= i, i < n),
+        self.p.assume(K.forall([i], z3.Implies(z3.And(0 <= i, i < n),
                                                 z3.And(K.nsel(s.terms[1], at_i),
-                                                       K.nsel(pos, at_i) == i))))
+                                                       K.nsel(pos, at_i) == i)),
+                                patterns=[at_i[0]]))
         px = K.nsel(pos, xs)
-        self.p.assume(z3.ForAll(xs, z3.Implies(K.nsel(s.terms[1], xs),
+        self.p.assume(K.forall(xs, z3.Implies(K.nsel(s.terms[1], xs),
                                                z3.And(0 <= px, px < n,
-                                                      *[z3.Select(a, px) == x for a, x in zip(seq.terms[1:], xs)]))))
-        self.last_set_order = seq
+                                                      *[z3.Select(a, px) == x for a, x in zip(seq.terms[1:], xs)])),
+                                patterns=[K.nsel(s.terms[1], xs), px]))
+        self.p.seq_pos[seq.terms[1].get_id()] = ('setpos', pos)
         return seq
 
     def comprehension(self, elt, gens, what):
@@ -695,14 +700,26 @@ class Exec(CallsMixin, Interp):
                     z3.And(*[z3.Select(a, q) == t for a, t in zip(out.terms[1:], e.terms)]))))
                 return out
             if tag == 'seq' and len(g.ifs) >= 1:
-                return self.filter_comprehension(elt, g, src)
+                return self.filter_comprehension(elt, g, K.seq_len(src), lambda pos: K.seq_get(src, pos),
+                                                 lambda pos: z3.BoolVal(True))
+            if tag.startswith('map:'):
+                what = tag[4:]
+
+                def melem(pos, src=src, what=what):
+                    key = K.map_key_at(src, pos)
+                    if what == 'keys':
+                        return key
+                    if what == 'values':
+                        return K.map_get(src, key)
+                    return K.vtuple([key, K.map_get(src, key)])
+                return self.filter_comprehension(elt, g, src.terms[1], melem,
+                                                 lambda pos, src=src: K.map_live(src, pos))
             raise Unsupported('comprehension over %s' % tag)
         finally:
             self.env = saved
 
-    def filter_comprehension(self, elt, g, src):
+    def filter_comprehension(self, elt, g, n, elem_at, live_at):
         """[elt for x in src if pred]: axiomatised as an order-preserving filter (spec-mode pred/elt)."""
-        n = K.seq_len(src)
         idx = self.p.fresh('flt!idx', z3.ArraySort(z3.IntSort(), z3.IntSort()))
         inv = self.p.fresh('flt!inv', z3.ArraySort(z3.IntSort(), z3.IntSort()))
         j, j2, i = (self.p.fresh('flt!j', z3.IntSort()), self.p.fresh('flt!j2', z3.IntSort()),
@@ -710,8 +727,8 @@ class Exec(CallsMixin, Interp):
         saved_spec, self.spec = self.spec, True
         try:
             def at(pos):
-                self.assign_to(g.target, K.seq_get(src, pos))
-                pred = z3.And(*[self.truth(self.eval(c)) for c in g.ifs])
+                self.assign_to(g.target, elem_at(pos))
+                pred = z3.And(live_at(pos), *[self.truth(self.eval(c)) for c in g.ifs])
                 return pred, self.eval(elt)
             pj, ej = at(z3.Select(idx, j))
             pi, _ = at(i)
@@ -720,13 +737,17 @@ class Exec(CallsMixin, Interp):
         out = self.p.fresh_value(K.Seq(ej.kind), 'flt')
         m = K.seq_len(out)
         self.p.assume(z3.And(0 <= m, m <= n))
-        self.p.assume(z3.ForAll([j], z3.Implies(z3.And(0 <= j, j < m), z3.And(
+        self.p.assume(K.forall([j], z3.Implies(z3.And(0 <= j, j < m), z3.And(
             0 <= z3.Select(idx, j), z3.Select(idx, j) < n, pj,
-            *[z3.Select(a, j) == t for a, t in zip(out.terms[1:], ej.terms)]))))
-        self.p.assume(z3.ForAll([j, j2], z3.Implies(z3.And(0 <= j, j < j2, j2 < m),
-                                                    z3.Select(idx, j) < z3.Select(idx, j2))))
-        self.p.assume(z3.ForAll([i], z3.Implies(z3.And(0 <= i, i < n, pi), z3.And(
-            0 <= z3.Select(inv, i), z3.Select(inv, i) < m, z3.Select(idx, z3.Select(inv, i)) == i))))
+            *[z3.Select(a, j) == t for a, t in zip(out.terms[1:], ej.terms)])),
+            patterns=[z3.Select(idx, j)] + [z3.Select(a, j) for a in out.terms[1:2]]))
+        self.p.assume(K.forall([j, j2], z3.Implies(z3.And(0 <= j, j < j2, j2 < m),
+                                                    z3.Select(idx, j) < z3.Select(idx, j2)),
+                                patterns=[z3.MultiPattern(z3.Select(idx, j), z3.Select(idx, j2))]))
+        src_pat = [t for t in elem_at(i).terms if not z3.is_const(t)][:1]
+        self.p.assume(K.forall([i], z3.Implies(z3.And(0 <= i, i < n, pi), z3.And(
+            0 <= z3.Select(inv, i), z3.Select(inv, i) < m, z3.Select(idx, z3.Select(inv, i)) == i)),
+            patterns=[z3.Select(inv, i)] + src_pat))
         self.p.filter_maps = getattr(self.p, 'filter_maps', []) + [(idx, inv)]
         return out
 
